@@ -8,8 +8,9 @@
   * `startPoint`, `setRunId`, `delRunId`           : syncer/channel.go, pkg/store/store.go
                        (`VerifyRunId/SetRunId/newRunId/DelRunId/changeReplId`),
                        syncer/memory_channel.go (`StartPoint/SetRunId/DelRunId`)
-  * `Leader.handle`  : `ReplicaLeader.selfInspection/Handle/sendData`
-  * `session`        : `ReplicaFollower.Run` states 1..5 (`protoHandShake`, `preSync`,
+  * `View.handle`    : `syncer.ServiceReplica`, `ReplicaLeader.selfInspection/Handle/sendData`
+                       (the leader's state is read at four points of one request)
+  * `sessionV`       : `ReplicaFollower.Run` states 1..5 (`protoHandShake`, `preSync`,
                        `metaSync`, `rdbSync`, `aofSync`, `handleResp`)
 
   The byte type `β` is a parameter: the theorems are about an arbitrary history
@@ -33,6 +34,9 @@
    * `metaSync`: a `CLEAR` answer takes `handleResp`'s CLEAR branch (delete the run id,
      return an error) instead of being read as a snapshot announcement `offset 0 size 0`.
    * D14 (C05): an interrupted snapshot transfer leaves no snapshot (both backends).
+   * `sendData`: a reader that belongs to another run id than the request (the leader's
+     input switched id between the checks and `NewReader`, which ignores the id) is
+     answered with `ERROR` instead of streaming the other history.
   Core Lean only.
 -/
 import GunYu.Basic.Bytes
@@ -177,6 +181,8 @@ def conts : Int → List (List β) → List (Msg β)
 /-! ### leader -/
 
 structure Leader (β : Type) where
+  /-- `ServiceReplica`'s gate: role is leader, state is run, a ReplicaLeader exists -/
+  serving : Bool
   started : Bool
   inputIds : List Id
   cur : Id
@@ -195,9 +201,10 @@ def Leader.inAof (L : Leader β) (d : Data β) (off : Int) : Bool :=
 
 def inRdb (d : Data β) (off : Int) : Bool := d.snap.isSome && decide (off ≤ (d.base : Int))
 
-/-- `Channel.IsValidOffset` for the channel's own run id (`dataSet.InRange`,
-    `inRangeLocked`) -/
-def Leader.valid (L : Leader β) (off : Int) : Bool :=
+/-- `Channel.IsValidOffset(Offset{rid, off})`: false for another run id, else
+    `dataSet.InRange` / `inRangeLocked` -/
+def Leader.valid (L : Leader β) (rid : Id) (off : Int) : Bool :=
+  decide (L.cur = rid) &&
   match L.data with
   | none => false
   | some d => L.inAof d off || inRdb d off
@@ -214,34 +221,62 @@ structure Reply (β : Type) where
 
 /-- `sendData` once the start offset `off` is settled: `NewReader(off)` (AOF reader when a
     segment covers `off`, else the snapshot when `off` is not beyond it, else an error
-    answered with `CLEAR`), the `META` announcement, the `CONTINUE` chunks. -/
-def Leader.sendData (L : Leader β) (off : Int) (ch : List Nat) : Reply β :=
+    answered with `CLEAR`); (repaired) a reader of another run id than the one negotiated
+    is answered with `ERROR`; then the `META` announcement and the `CONTINUE` chunks. -/
+def Leader.sendData (L : Leader β) (rid : Id) (off : Int) (ch : List Nat) : Reply β :=
   match L.data with
   | none => ⟨[ctl .clear], .err, ch⟩
   | some d =>
     if L.inAof d off then
-      let r := chop ch (d.bytes.drop (off - (d.base : Int)).toNat ++ L.tail)
-      ⟨⟨.info, "", true, off, -1, []⟩ :: conts off r.1, .blocks, r.2⟩
+      if L.cur ≠ rid then ⟨[ctl .error], .err, ch⟩
+      else
+        let r := chop ch (d.bytes.drop (off - (d.base : Int)).toNat ++ L.tail)
+        ⟨⟨.info, "", true, off, -1, []⟩ :: conts off r.1, .blocks, r.2⟩
     else match d.snap with
       | none => ⟨[ctl .clear], .err, ch⟩
       | some s =>
         if off ≤ (d.base : Int) then
-          let r := chop ch s
-          ⟨⟨.info, "", false, d.base, s.length, []⟩ :: conts off r.1, .eof, r.2⟩
+          if L.cur ≠ rid then ⟨[ctl .error], .err, ch⟩
+          else
+            let r := chop ch s
+            ⟨⟨.info, "", false, d.base, s.length, []⟩ :: conts off r.1, .eof, r.2⟩
         else ⟨[ctl .clear], .err, ch⟩
 
-/-- `ReplicaLeader.Handle` for the request `(rid, roff)`; `ch` are the sizes of the
-    successive `ioReader.Read` results. -/
-def Leader.handle (L : Leader β) (rid : Id) (roff : Int) (ch : List Nat) : Reply β :=
-  if !L.started then ⟨[], .err, ch⟩
-  else match L.inputIds with
+/-- the leader's state as `ServiceReplica`/`Handle` read it during ONE request. The
+    leader's own input may switch run id, re-read or replace the cache between the reads:
+    `l1` = gate, `start`, `selfInspection` (input ids, channel id); `l2` = input ids again,
+    `StartPoint(nil)`; `l3` = `IsValidOffset`; `l4` = `NewReader` and what it streams. -/
+structure View (β : Type) where
+  l1 : Leader β
+  l2 : Leader β
+  l3 : Leader β
+  l4 : Leader β
+
+def View.const (L : Leader β) : View β := ⟨L, L, L, L⟩
+
+/-- `ServiceReplica` + `ReplicaLeader.Handle` for the request `(rid, roff)`; `ch` are the
+    sizes of the successive `ioReader.Read` results. -/
+def View.handle (v : View β) (rid : Id) (roff : Int) (ch : List Nat) : Reply β :=
+  if !v.l1.serving then ⟨[ctl .failure], .err, ch⟩
+  else if !v.l1.started then ⟨[], .err, ch⟩
+  else match v.l1.inputIds with
   | [] => ⟨[ctl .failure], .err, ch⟩
   | i0 :: _ =>
-    if i0 ≠ L.cur then ⟨[ctl .clear], .eof, ch⟩
-    else if rid = "" || rid = "?" then ⟨[⟨.info, L.cur, false, latest L.data, 0, []⟩], .eof, ch⟩
-    else if i0 ≠ rid then ⟨[ctl .error], .err, ch⟩
-    else if roff - latest L.data > 0 then ⟨[⟨.handover, L.cur, false, latest L.data, 0, []⟩], .err, ch⟩
-    else L.sendData (if L.valid roff then roff else latest L.data) ch
+    -- selfInspection answers "wait a moment" with CLEAR when the channel's id is not the
+    -- input's newest — and returns no error, so Handle goes on after it
+    let pre : List (Msg β) := if i0 ≠ v.l1.cur then [ctl .clear] else []
+    let rp : Reply β :=
+      if rid = "" || rid = "?" then
+        ⟨[⟨.info, v.l2.cur, false, latest v.l2.data, 0, []⟩], .eof, ch⟩
+      else if v.l2.inputIds.head? ≠ some rid then ⟨[ctl .error], .err, ch⟩
+      else if roff - latest v.l2.data > 0 then
+        ⟨[⟨.handover, v.l2.cur, false, latest v.l2.data, 0, []⟩], .err, ch⟩
+      else v.l4.sendData rid (if v.l3.valid rid roff then roff else latest v.l2.data) ch
+    ⟨pre ++ rp.msgs, rp.fin, rp.rest⟩
+
+/-- a leader that does not change during the request -/
+def Leader.handle (L : Leader β) (rid : Id) (roff : Int) (ch : List Nat) : Reply β :=
+  (View.const L).handle rid roff ch
 
 /-! ### follower -/
 
@@ -354,13 +389,14 @@ def aofSync (bk : Backend) (F : Store β) (x : Id) (m : Msg β) (ms : List (Msg 
   aofRecv F1 m.offset.toNat ms fin budget lost
 
 /-- states 3,4,5 of `Run`: `metaSync`, then `rdbSync` + `StartPoint` + state 3 again, or
-    `aofSync`. `fuel` bounds the number of `metaSync` rounds (each consumes a message,
-    so `cut + 1` is always enough). -/
-def syncLoop (bk : Backend) (L : Leader β) (lost : Nat) (x : Id) :
-    Nat → Nat → List Nat → Store β → Id × Int → Out β
-  | 0, _, _, F, _ => ⟨F, [], .msync, .fuel⟩
-  | fuel + 1, budget, ch, F, fsp =>
-    let rp := L.handle fsp.1 fsp.2 ch
+    `aofSync`. `V n` is the leader as the `n`-th request of the session reads it; `fuel`
+    bounds the number of `metaSync` rounds (each consumes a message, so `cut + 1` is
+    always enough). -/
+def syncLoopV (bk : Backend) (V : Nat → View β) (lost : Nat) (x : Id) :
+    Nat → Nat → Nat → List Nat → Store β → Id × Int → Out β
+  | 0, _, _, _, F, _ => ⟨F, [], .msync, .fuel⟩
+  | fuel + 1, n, budget, ch, F, fsp =>
+    let rp := (V n).handle fsp.1 fsp.2 ch
     match budget, rp.msgs with
     | 0, _ => ⟨F, [], .msync, .cut⟩
     | _ + 1, [] => ⟨F, [], .msync, finCls rp.fin⟩
@@ -380,13 +416,14 @@ def syncLoop (bk : Backend) (L : Leader β) (lost : Nat) (x : Id) :
           | none =>
             let F2 := F1.setCur (some ⟨m.offset.toNat, [], some (q.2.1.take m.size.toNat)⟩)
             let r := startPoint bk F2 x
-            Out.pre q.1 (syncLoop bk L lost x fuel (b - q.1.length) rp.rest r.1 r.2)
+            Out.pre q.1 (syncLoopV bk V lost x fuel (n + 1) (b - q.1.length) rp.rest r.1 r.2)
 
-/-- one run of the follower state machine against the leader `L`, cut after `cut`
-    delivered messages. -/
-def session (bk : Backend) (L : Leader β) (F : Store β) (ch : List Nat) (cut lost fuel : Nat) :
+/-- one pass of the follower state machine (`Run` from state 1 to its first error) against
+    a leader whose state the `n`-th request reads as `V n`, cut after `cut` delivered
+    messages. -/
+def sessionV (bk : Backend) (V : Nat → View β) (F : Store β) (ch : List Nat) (cut lost fuel : Nat) :
     Out β :=
-  let rp := L.handle "" 0 ch
+  let rp := (V 0).handle "" 0 ch
   match cut, rp.msgs with
   | 0, _ => ⟨F, [], .hs, .cut⟩
   | _ + 1, [] => ⟨F, [], .hs, finCls rp.fin⟩
@@ -398,6 +435,11 @@ def session (bk : Backend) (L : Leader β) (F : Store β) (ch : List Nat) (cut l
       if m.runId = "" then ⟨F, [], .hs, .emptyid⟩
       else
         let r := preSync bk F m.runId m.offset
-        syncLoop bk L lost m.runId fuel b rp.rest r.1 r.2
+        syncLoopV bk V lost m.runId fuel 1 b rp.rest r.1 r.2
+
+/-- the same against a leader that does not change during the session -/
+def session (bk : Backend) (L : Leader β) (F : Store β) (ch : List Nat) (cut lost fuel : Nat) :
+    Out β :=
+  sessionV bk (fun _ => View.const L) F ch cut lost fuel
 
 end GunYu.Replica
